@@ -610,3 +610,26 @@ package security
 //@   props C16
 //@   ensures key_on_success: [C16] err == nil ==> result != nil && fresh(result) && result.Protocol == "AESGCM"
 //@   ensures no_key_on_failure: [C16] err != nil ==> result == nil
+
+// ---- two-party agreement (C10): the lemmas that connect the two sides' contracts ----------------------------------
+// Server: createServerSecurityAd.answers_are_the_decision (the ad says YES iff the server decided to authenticate /
+// encrypt). Wire: the ad the client parses is the ad the server sent (assumption: C01/C02 deliver it unchanged).
+// Client: parseServerSecurityAd.levels_as_sent, then handleClientAuthentication.declined/ran: on success the client's
+// reported flag is (answer == "YES"). Hence both sides report the same authentication outcome:
+//@ lemma authentication_outcome_agrees
+//@   props C10
+//@   var serverDecision bool answer string clientReports bool
+//@   hyp answer == ite(serverDecision, "YES", "NO")
+//@   hyp clientReports == (answer == "YES")
+//@   concl clientReports == serverDecision
+//@ end
+// Keying: setupStreamEncryption.keyed_only_by_wire_facts / keyed_whenever_both_keys make "the stream is keyed" a function
+// of (client key present, server key present, cipher == AES) on both sides; each side sees its own key (NewAuthenticator.
+// key_advertised) and the peer's key as sent (parseServerSecurityAd.key_as_sent). Hence both sides key or neither does:
+//@ lemma keying_decision_agrees
+//@   props C10
+//@   var ck string sk string cipher string clientKeyed bool serverKeyed bool
+//@   hyp clientKeyed == (ck != "" && sk != "" && cipher == "AES")
+//@   hyp serverKeyed == (ck != "" && sk != "" && cipher == "AES")
+//@   concl clientKeyed == serverKeyed
+//@ end
